@@ -16,9 +16,9 @@ def build(tier, seed):
         rp = extract(lib, r"^    fn rustfmt_path\(&self\) -> Cow<'_, Path> \{", what='Bindings::rustfmt_path')
         ft = extract(lib, r'^    fn format_tokens\(', what='Bindings::format_tokens')
         body = (w + '\n' + rp + '\n' + ft)
-        if '::std::thread::spawn' not in body:
-            raise SliceError('format_tokens no longer spawns the stdin writer with ::std::thread::spawn')
-        body = body.replace('::std::thread::spawn', 'verif_thread::spawn')
+        # the one rewrite: the helper thread becomes a synchronous stub that marks its closure as 'the feeder'. If the code no longer spawns one,
+        # nothing is rewritten and the pipe model of the environment decides whether writing stdin on the reading thread can block forever
+        body = body.replace('::std::thread::spawn', 'verif_thread::spawn').replace('std::thread::spawn', 'verif_thread::spawn').replace('thread::spawn', 'verif_thread::spawn').replace('verif_verif_thread', 'verif_thread')
         pre = open(os.path.join(G, 'prelude', 'proc_env.rs')).read()
         text = pre + 'impl Bindings {\n' + body + '\n}\n' + open(os.path.join(G, 'harness', 'c15.rs')).read()
         kern = Kernel(name='formatter')
